@@ -347,6 +347,9 @@ class Interp:
                 res = {"range": range, "enumerate": enumerate, "zip": zip, "min": min, "max": max, "sum": sum, "sorted": sorted,
                        "list": list, "tuple": tuple, "reversed": reversed, "round": round}[name](*args, **kws)
             except (TypeError, ValueError) as exc:
+                if name in ("round", "min", "max") and any(hasattr(a, "free_symbols") for a in args):
+                    import sympy
+                    return sympy.Function(name)(*args)  # symbolic evaluation: stays an uninterpreted term (never equal to its argument)
                 raise AnalysisError(f"guard language: cannot evaluate {U(node)[:60]!r}: {exc}") from exc
             if name in ("range", "enumerate", "zip", "reversed"):
                 return [list(x) if isinstance(x, tuple) and name != "zip" else x for x in res] if name == "enumerate" else list(res)
